@@ -553,6 +553,8 @@ func parseHeader(kw, rest, pkg string) (*Contract, error) {
 	} else {
 		rest = "func " + rest
 	}
+	// closures are named f$1, f$2 ... by go/ssa
+	rest = strings.ReplaceAll(rest, "$", "ǂ")
 	fset := token.NewFileSet()
 	file, err := parser.ParseFile(fset, "hdr.go", "package p\n"+rest+"\n", 0)
 	if err != nil {
@@ -575,7 +577,7 @@ func parseHeader(kw, rest, pkg string) (*Contract, error) {
 			name = "(" + t.Name + ")." + name
 		}
 	}
-	c.Key = pkg + "." + name
+	c.Key = pkg + "." + strings.ReplaceAll(name, "ǂ", "$")
 	if fd.Type.Params != nil {
 		for _, f := range fd.Type.Params.List {
 			if len(f.Names) == 0 {
